@@ -220,6 +220,13 @@ class VSeqSet:
         self.arr = arr
 
 
+class VSeqMap:
+    """a python dict from tuples of ints to ints: key set (characteristic array over abstract literal lists) + value array"""
+
+    def __init__(self, present, val):
+        self.present, self.val = present, val
+
+
 class VParities:
     """python list of pairs (list of variables X, int b): kept as the sequence of the augmented lists X + [b]"""
 
@@ -665,6 +672,8 @@ class Engine:
             L = self.fresh(base + '_len')
             self.assume(L >= 1)
             return VArrN0(L, self.fresh(base + '_arr', z3.ArraySort(z3.IntSort(), z3.IntSort())))
+        if ty == 'seqmap':
+            return VSeqMap(self.fresh(base + '_keys', specs.SeqSet), self.fresh(base + '_vals', z3.ArraySort(specs.ISeq, z3.IntSort())))
         if ty == 'grouplist':
             L = self.fresh(base + '_len')
             self.assume(L >= 0)
@@ -881,6 +890,8 @@ class Engine:
             return VMList(v.term)
         if isinstance(v, VGroups):
             return VGroups(v.length, v.lo, v.hi, v.single)
+        if isinstance(v, VSeqMap):
+            return VSeqMap(v.present, v.val)
         if isinstance(v, VCounted):
             return VCounted(v.count, v.last)
         if isinstance(v, VSink):
@@ -1154,6 +1165,8 @@ class Engine:
                 v = VMList(specs.onil)
             elif fty == 'opaque' and not isinstance(v, VOpaque):
                 v = VOpaque(t.attr)
+            elif fty == 'seqmap' and not isinstance(v, VSeqMap):
+                v = VSeqMap(z3.K(specs.ISeq, z3.BoolVal(False)), z3.K(specs.ISeq, z3.IntVal(0)))      # `self.seq2vid = {}`
             o.fields[t.attr] = v
             return
         if isinstance(t, ast.Subscript):
@@ -1171,6 +1184,13 @@ class Engine:
                 if not z3.simplify(toz(v) == -specs.iget(base.term, i)).eq(z3.BoolVal(True)):
                     raise Unsupported('store into an abstract literal list other than an in-place negation')
                 env[t.value.id] = VSeq(specs.iflip1(base.term, i))     # the name now denotes the list with position i negated
+                return
+            if isinstance(base, VSeqMap):
+                key = _term(idx)
+                if not (is_z3(key) and key.sort() == specs.ISeq):
+                    raise Unsupported('dictionary key that is not a tuple of ints')
+                base.present = z3.Store(base.present, key, z3.BoolVal(True))
+                base.val = z3.Store(base.val, key, toz(v))
                 return
             if isinstance(base, (VOpaque, VTextTable)):
                 return                       # store into an unmodelled container (e.g. the header dict)
@@ -1309,6 +1329,9 @@ class Engine:
             return v
         if isinstance(v, VParities):
             v.aug = self.fresh(name + '_aug', specs.CSeq)
+            return v
+        if isinstance(v, VSeqMap):
+            v.present, v.val = self.fresh(name + '_keys', v.present.sort()), self.fresh(name + '_vals', v.val.sort())
             return v
         if isinstance(v, VGroups):
             v.length = self.fresh(name + '_len')
@@ -2264,6 +2287,11 @@ class Engine:
         raise Unsupported(what)
 
     def contains(self, container, x, node):
+        if isinstance(container, VSeqMap):
+            key = _term(x)
+            if is_z3(key) and key.sort() == specs.ISeq:
+                return z3.Select(container.present, key)
+            raise Unsupported('membership of a non-tuple in a dictionary of tuples')
         if isinstance(container, VSeqSet):
             if isinstance(x, VSeq) and x.sortname == 'ISeq':
                 return z3.Select(container.arr, x.term)
@@ -2377,6 +2405,14 @@ class Engine:
             if getattr(self, 'in_spec', False):
                 return get(toz(idx))
             return get(self.norm_index(idx, L, e))
+        if isinstance(base, VSeqMap):
+            key = _term(idx)
+            if not (is_z3(key) and key.sort() == specs.ISeq):
+                raise Unsupported('dictionary key that is not a tuple of ints')
+            if not getattr(self, 'in_spec', False):
+                if not self.branch(z3.Select(base.present, key)):
+                    raise PyExc('KeyError', e.lineno)
+            return z3.Select(base.val, key)
         if isinstance(base, VArr2) and base.present is not None:
             if not getattr(self, 'in_spec', False):
                 self.oblige('hazard', 'dict key present (KeyError): {}'.format(ast.unparse(e)), z3.Select(base.present, toz(idx)), e.lineno)
@@ -3734,7 +3770,7 @@ def sf_mapcall(eng, node, g, n, m, index):
 
 
 SPEC_FUNCS = {
-    'combs2': lambda eng, node, lo, hi: VCombs2(toz(lo), toz(hi)), 'cvar': _wrap(specs.cvar), 'degsum': _wrap(specs.degsum), 'gadj': _wrap(specs.gadj), 'pvar': _wrap(specs.pvar), 'glo': lambda eng, node, g, i: z3.Select(g.lo, toz(i)), 'ghi': lambda eng, node, g, i: z3.Select(g.hi, toz(i)),
+    'combs2': lambda eng, node, lo, hi: VCombs2(toz(lo), toz(hi)), 'cvar': _wrap(specs.cvar), 'degsum': _wrap(specs.degsum), 'gadj': _wrap(specs.gadj), 'pvar': _wrap(specs.pvar), 'mhas': lambda eng, node, m, k: z3.Select(m.present, _term(k)), 'mget': lambda eng, node, m, k: z3.Select(m.val, _term(k)), 'glo': lambda eng, node, g, i: z3.Select(g.lo, toz(i)), 'ghi': lambda eng, node, g, i: z3.Select(g.hi, toz(i)),
     'gsingle': lambda eng, node, g, i: z3.Select(g.single, toz(i)), 'cnb': _wrap(specs.cnb), 'isorted': _wrap(specs.isorted), 'nbj': _wrap(specs.nbj), 'nbv': _wrap(specs.nbv), 'lnbrs': _wrap(specs.lnbrs),
     'mapcall': sf_mapcall, 'mrow': _wrap(specs.mrow), 'mcol': _wrap(specs.mcol),
     'evnest': _wrap(specs.evnest), 'dedges': _wrap(specs.dedges),
